@@ -117,7 +117,7 @@ def _raise_before_write(ctx):
         g = cfg_of(f.node)
         from ..rules.mustfx import MustFx
         mx = ctx.lazy('mustfx-checked', lambda: MustFx(get_cg(ctx), {'self.xsd_check': True, 'self._xsd_check': True}))
-        muts = mx.nodes_with(f, lambda l: l[0] == 'write' and l[1] == 'self' and l[2] == '_unordered_children' and l[3] in ('remove', 'insert', 'append', 'pop'))
+        muts = mx.nodes_with(f, lambda l: l[0] == 'write' and l[1] == 'self' and l[2] == '_unordered_children' and l[3] in ('remove', 'insert', 'append', 'pop', 'setitem'))
         first = [m for m in muts if not any(g.dominates(o, m) and o is not m for o in muts)]
         rejecting = [n for n in g.stmt_nodes() if (n.kind == 'stmt' and isinstance(n.ast, ast.Raise)) or
                      any(isinstance(c, ast.Call) and unparse(c.func) in ('self._check_child_to_be_added', 'self._child_container_tree.add_element') for e in n.exprs() for c in ast.walk(e)) or
